@@ -286,7 +286,7 @@ def vouch_model_join(v, started):
 def _expect_walk_rejected(cfg, timeout=600):
     """The control design of the duty-shape class (Attester!WalkReq: the request built by walking the raw duty) must be
     rejected by TLC once a duty may list a validator twice: otherwise the model's duty alphabet says nothing about it."""
-    r = vf.tlc(PID, "mc-" + cfg.replace(".cfg", ""), "MC_Attester", cfg, workers=4, timeout=timeout, heap="6g")
+    r = vf.tlc(PID, "mc-" + cfg.replace(".cfg", ""), "MC_Attester", cfg, workers=2, timeout=timeout, heap="2g")
     if r["timed_out"] or r["kind"] != "invariant" or r["violated"] != "NoDoubleSign":
         raise vf.Broken("%s should violate NoDoubleSign (vacuous duty alphabet?): %s %s\n%s" % (cfg, r["kind"], r["violated"], r["out"][-1500:]))
     vf.log("TLC MC_Attester/%s: NoDoubleSign violated as it must be (%d distinct states, %.1fs)" % (cfg, r["distinct"], r["wall_s"]))
@@ -296,12 +296,13 @@ def shape_model(tier, out):
     """The duty-shape models (third thread): the attester over duties that are SEQUENCES of entries with repeats, on
     pre-marked instances; the control design holds while validators are distinct and is rejected once they may repeat."""
     try:
-        res = [vf.tlc_exhaustive(PID, "MC_Attester", "MC_Attester_shape.cfg", workers=4, timeout=600),
-               vf.tlc_exhaustive(PID, "MC_Attester", "MC_Attester_walk_inj.cfg", workers=4, timeout=600)]
+        # (small heaps: these run beside the other models of the check)
+        res = [vf.tlc_exhaustive(PID, "MC_Attester", "MC_Attester_shape.cfg", workers=4, timeout=600, heap="3g"),
+               vf.tlc_exhaustive(PID, "MC_Attester", "MC_Attester_walk_inj.cfg", workers=2, timeout=600, heap="2g")]
         _expect_walk_rejected("MC_Attester_walk.cfg")
         if tier == "thorough":
-            res.append(vf.tlc_exhaustive(PID, "MC_Attester", "MC_Attester_shapebig.cfg", timeout=1500))
-            res.append(vf.tlc_exhaustive(PID, "MC_Attester", "MC_Attester_ovlrep.cfg", timeout=1500))
+            res.append(vf.tlc_exhaustive(PID, "MC_Attester", "MC_Attester_shapebig.cfg", workers=4, timeout=1800, heap="3g"))
+            res.append(vf.tlc_exhaustive(PID, "MC_Attester", "MC_Attester_ovlrep.cfg", workers=4, timeout=1800, heap="3g"))
         out["mc"] = res
     except BaseException as e:      # re-raised by the caller
         out["err"] = e
@@ -325,15 +326,32 @@ def run(tier):
             th.join()
 
 
+def attester_model(tier, out):
+    """The exhaustive runs of Attester.tla proper (overlapping runs, sequential histories) go on beside the conformance."""
+    try:
+        res = [vf.tlc_exhaustive(PID, "MC_Attester", "MC_Attester.cfg"),
+               vf.tlc_exhaustive(PID, "MC_Attester", "MC_Attester_hist.cfg")]
+        if tier == "thorough":
+            res.append(vf.tlc_exhaustive(PID, "MC_Attester", "MC_Attester_big.cfg", timeout=1800))
+        out["mc"] = res
+    except BaseException as e:      # re-raised by the caller
+        out["err"] = e
+
+
 def _run(v, tier, started):
-    v.add_mc(vf.tlc_exhaustive(PID, "MC_Attester", "MC_Attester.cfg"))
-    v.add_mc(vf.tlc_exhaustive(PID, "MC_Attester", "MC_Attester_hist.cfg"))
-    if tier == "thorough":
-        v.add_mc(vf.tlc_exhaustive(PID, "MC_Attester", "MC_Attester_big.cfg", timeout=1200))
+    att = {}
+    th = threading.Thread(target=attester_model, args=(tier, att))
+    th.start()
+    started[0].append(th)            # joined by run() whatever happens
     sc = scenarios(tier)
     vf.conformance(v, sc, driver, TRACE[0], TRACE[1], sig_of, nontrivial, dfs=True,
                    chunk=None if tier == "quick" else 600)
     run_vouch(v, tier)
+    th.join()
+    if "err" in att:
+        raise att["err"]
+    for r in att["mc"]:
+        v.add_mc(r)
     vouch_model_join(v, started)
     v.coverage["rule"] = ("behaviours of Attester.tla generated by TLC simulation (seeded): multi-run histories on one "
                           "service instance (repeated / re-assigned duties, duties that list a validator more than once, failures "
